@@ -839,6 +839,13 @@ func writesIntoMD(fn *ssa.Function, md ssa.Value, depth int) bool {
 				if derives(x.X) {
 					return true
 				}
+			case *ssa.UnOp:
+				// the header set of a request the function was handed
+				if fa, ok := x.X.(*ssa.FieldAddr); ok && x.Op == token.MUL {
+					if _, fld, isF := core.FieldOf(fa); isF && (fld == "Header" || fld == "Trailer") && derives(fa.X) {
+						return true
+					}
+				}
 			case *ssa.ChangeType:
 				if derives(x.X) {
 					return true
